@@ -167,6 +167,13 @@ def rule_first(ctx: Ctx) -> RuleResult:
     for c in s2d_calls:
         tests = ctx.ef._dominating_tests(gcfg, c)
         uri = [(t, lab) for t, lab in tests if any(isinstance(x, ast.Constant) and x.value == ":" for x in ast.walk(t))]
+        # `head, sep, tail = s.partition(':')` ... `if sep:` is the same test
+        for t, lab in tests:
+            if isinstance(t, ast.Name):
+                du = _unpack_def(gflow, t, gflow.node_of(t).id if gflow.node_of(t) is not None else gflow.node_of(c).id)
+                if du is not None and du.index == 1 and isinstance(du.value, ast.Call) and isinstance(du.value.func, ast.Attribute) \
+                        and du.value.func.attr == "partition" and du.value.args and norm(du.value.args[0]) == "':'":
+                    uri.append((t, lab))
         if not uri and _merged_uri_call(ctx, g, gflow, gcfg, c):
             res.ok("sid_to_sid (one call)", "sid_to_dict(<rest>, <prefix or None>): the type is the uri prefix when there is one, else None")
             continue
@@ -183,11 +190,20 @@ def rule_first(ctx: Ctx) -> RuleResult:
         if lab == "true":
             good = len(c.args) == 2 and not c.keywords
             if good:
-                d = _unpack_def(gflow, c.args[1], gflow.node_of(c).id)
-                d0 = _unpack_def(gflow, c.args[0], gflow.node_of(c).id)
-                good = d is not None and d0 is not None and d.value is d0.value and (d.index, d0.index) == (0, 1) \
-                    and isinstance(d.value, ast.Call) and isinstance(d.value.func, ast.Attribute) and d.value.func.attr == "split" \
-                    and norm(d.value.args[0]) == "':'"
+                def _through_alias(e_):
+                    # `string = tail`: one plain copy of a name is looked through
+                    if isinstance(e_, ast.Name):
+                        ds_ = gflow.defs_reaching(gflow.node_of(c).id, e_.id)
+                        if len(ds_) == 1 and ds_[0].kind == "assign" and isinstance(ds_[0].value, ast.Name):
+                            return ds_[0].value, ds_[0].node
+                    return e_, gflow.node_of(c).id
+                a1, at1 = _through_alias(c.args[1])
+                a0, at0 = _through_alias(c.args[0])
+                d = _unpack_def(gflow, a1, at1)
+                d0 = _unpack_def(gflow, a0, at0)
+                good = d is not None and d0 is not None and d.value is d0.value and isinstance(d.value, ast.Call) \
+                    and isinstance(d.value.func, ast.Attribute) and norm(d.value.args[0]) == "':'" and (
+                        (d.value.func.attr == "split" and (d.index, d0.index) == (0, 1)) or (d.value.func.attr == "partition" and (d.index, d0.index) == (0, 2)))
             if good:
                 res.ok("sid_to_sid uri branch", "sid_to_dict(<rest>, <prefix>) with prefix, rest = string.split(':', 1)")
             else:
